@@ -44,7 +44,7 @@ TRUSTED = [
     "hand-written model lean/SyneTune/Model/{SyncBracket,SyncManager,SyncScheduler}.lean tied to /repo by the sync correspondence stream",
     "Python harness harness/streams/sync.py (scripted workers, recording stub searcher, slot tables read from the private fields of the real objects)",
     "Python `sorted` (Timsort) modelled as the stable sort by key; `reverse=True` keeps the original order among equal keys",
-    "metrics are finite floats or NaN (±inf not generated); numpy float arithmetic of `geometric` is exact for the dyadic factors generated, "
+    "metrics are finite floats or NaN in the cases compared with the model (±inf only in monitor-only cases); numpy float arithmetic of `geometric` is exact for the dyadic factors generated, "
     "ceilings within 2^-40 of an integer computed from non-dyadic factors are 'free' (model adopts the implementation's value)",
 ]
 ASSUMPTIONS = [
@@ -121,7 +121,7 @@ def gen_ctor(rng, tier):
             sysm[0][-1][0] = 0
         c["bracket_rungs"] = sysm
     else:
-        rf = rng.choice(["2", "3", "3", "4", "5/2", "9/4"])
+        rf = rng.choice(["2", "3", "3", "4", "5/2", "9/4", "7/2", "11/4"])
         mn = rng.choice([1, 1, 2, 3])
         mx = rng.choice([mn + 1, 4, 9, 16, 27] if tier == "quick" else [mn + 1, 4, 9, 16, 27, 30, 81])
         if mx <= mn:
@@ -228,6 +228,12 @@ def gen_cases(rng, tier):
         yield gen_scheduler_case(rng, tier)
     for _ in range(n_m):
         yield gen_manager_case(rng, tier)
+    # infinite metric values (monitor only: the model's metrics are rationals or NaN): +-inf is a value like any other, it ranks
+    # first or last among the valid entries of its rung and is not a failure
+    for _ in range(12 if tier == "quick" else 150):
+        spec = gen_scheduler_case(rng, tier)
+        spec.update({"p_inf": rng.choice([0.15, 0.3]), "p_nan": 0, "p_skip": 0, "p_late": 0, "p_noconfig": 0, "monitor_only": True})
+        yield spec
     # the real DEHB scheduler (monitor only, no model of DEHB's scheduler): with pause and resume (the default) the best trials of a
     # completed rung of the first bracket are RESUMED - a new trial is never given the configuration of an earlier one
     for i in range(6 if tier == "quick" else 60):
@@ -316,6 +322,10 @@ def run_impl(spec):
     for inp, impl in t["lines"]:
         if impl is not None and "err" in impl:
             cnt("impl_err:" + impl["err"] + ":" + str(inp.get("op", "ctor")))
+    if spec.get("monitor_only"):
+        cnt("monitor-only:infinite-metrics")
+        return {"lines": [], "monitor": mon, "meta": {"hist": hist, "completed": completed},
+                "resumes": [e["trial"] for e in t["events"] if e["ev"] == "resume"]}
     return {"lines": t["lines"], "monitor": mon, "meta": {"hist": hist, "completed": completed},
             "resumes": [e["trial"] for e in t["events"] if e["ev"] == "resume"]}
 
